@@ -8,6 +8,12 @@ Open Scope Z_scope.
 Definition clk_lo : clock := fun _ => 0.
 Definition clk_hi (calls : list call) : clock :=
   fun s => match s with SConc i => min_inv (calls_of i calls) | _ => min_inv calls end.
+(* ... and the router handler's before the request builder runs, when that was observed *)
+Definition clk_hi_rb (rb : option Z) (calls : list call) : clock :=
+  fun s => match s, rb with
+           | SRouter, Some r => Z.min r (min_inv calls)
+           | _, _ => clk_hi calls s
+           end.
 
 Definition dl_model (c : config) (clk : clock) (i : nat) : option Z :=
   deadline (ctx_call lura_factors c clk i 0).
@@ -41,7 +47,7 @@ Definition shape_ok (c : config) (o : obs) : bool :=
 Definition deadlines_ok (c : config) (o : obs) : bool :=
   let calls := o_calls o in
   forallb (fun k => opt_le (dl_model c clk_lo (k_be k)) (k_dl k) &&
-                    opt_le (k_dl k) (dl_model c (clk_hi calls) (k_be k))) calls.
+                    opt_le (k_dl k) (dl_model c (clk_hi_rb (o_rb o) calls) (k_be k))) calls.
 
 (* calls that share their innermost WithTimeout frame report the same deadline *)
 Definition shared_ok (c : config) (o : obs) : bool :=
